@@ -7,7 +7,7 @@ import coqlit as L
 
 ID = "C05"
 COQ_PROPERTY_FILE = "Properties/C05.v"
-COQ_DEPS = ["Common/ObsHash.v", "Generated/Tables.v", "Model/StepCounter.v", "Proofs/StepCounterProofs.v"]
+COQ_DEPS = ["Common/ListX.v", "Common/ObsHash.v", "Generated/Tables.v", "Model/StepCounter.v", "Proofs/StepCounterProofs.v"]
 COQ_IMPORTS = "From Mesa Require Import Model.StepCounter."
 COQ_CASE_TYPE = "case"
 COQ_RUN = "run_case"
@@ -35,12 +35,14 @@ ASSUMPTIONS = [
     "run_model is only exercised on classes that define step somewhere (otherwise it cannot terminate); the harness "
     "aborts a run_model loop after a fixed number of calls and the model does the same (fuel)",
 ]
+SOURCE_FUNCS = [("mesa/model.py", "Model.__init__"), ("mesa/model.py", "Model._wrapped_step"), ("mesa/model.py", "Model.run_model"),
+                ("mesa/model.py", "Model.step")]
 FUEL = 14
 
 
 # ------------------------------------------------------------------ generation
-def _lvl(d, arity=-1, sup=False, fwd=False, stop=None, rz=None):
-    return {"def": bool(d), "arity": arity, "super": bool(sup), "fwd": bool(fwd), "stop": stop, "raise": rz}
+def _lvl(d, arity=-1, sup=False, fwd=False, stop=None, rz=None, rec=None):
+    return {"def": bool(d), "arity": arity, "super": bool(sup), "fwd": bool(fwd), "stop": stop, "raise": rz, "rec": rec}
 
 
 def _gen_level(rng):
@@ -52,6 +54,26 @@ def _gen_level(rng):
     stop = rng.randint(1, 9) if rng.random() < 0.5 else None
     rz = rng.randint(1, 7) if rng.random() < 0.1 else None
     return _lvl(True, arity, sup, fwd, stop, rz)
+
+
+def _add_recursion(rng, levels):
+    """some bodies call self.step() again while self.steps is below a small threshold"""
+    for lv in levels:
+        if lv["def"] and rng.random() < 0.5:
+            lv["rec"] = rng.randint(2, 9)
+
+
+def _gen_bases(rng, n):
+    """a multiple-inheritance DAG over the levels whose C3 linearisation is the index order: every class lists
+    the next one first and then any later ones (ascending)"""
+    bases = []
+    for i in range(n):
+        if i == n - 1:
+            bases.append([])
+        else:
+            extra = [j for j in range(i + 2, n) if rng.random() < 0.5]
+            bases.append([i + 1] + extra)
+    return bases
 
 
 def _resolved(levels):
@@ -78,9 +100,14 @@ def _gen_args(rng, levels):
 def _gen_history(rng):
     ncls = rng.choice([1, 1, 2, 3])
     classes = []
+    bases = []
     for _ in range(ncls):
         depth = rng.choice([0, 1, 1, 2, 2, 3, 3, 4, 5, 6])
-        classes.append([_gen_level(rng) for _ in range(depth)])
+        levels = [_gen_level(rng) for _ in range(depth)]
+        if rng.random() < 0.25:
+            _add_recursion(rng, levels)
+        classes.append(levels)
+        bases.append(_gen_bases(rng, depth) if depth >= 3 and rng.random() < 0.5 else None)
     ops = []
     inst_cls = []
     for _ in range(rng.choice([1, 2, 2, 3])):
@@ -101,7 +128,7 @@ def _gen_history(rng):
             c = rng.randrange(ncls)
             ops.append(["new", c])
             inst_cls.append(c)
-    return {"classes": classes, "ops": ops}
+    return {"classes": classes, "bases": bases, "ops": ops}
 
 
 _KINDS = [_lvl(False)] + [
@@ -162,7 +189,9 @@ class _Driver:
 
         self.mesa = mesa
         self.specs = case["classes"]
-        self.classes = [self.mk_class(ci, lv) for ci, lv in enumerate(self.specs)]
+        bases = case.get("bases") or [None] * len(self.specs)
+        self.depth = 0
+        self.classes = [self.mk_class(ci, lv, bases[ci]) for ci, lv in enumerate(self.specs)]
         self.insts = []
         self.inst_cls = []
         self.log = []
@@ -181,17 +210,18 @@ class _Driver:
                 return i
         return -7
 
-    def mk_class(self, ci, levels):
+    def mk_class(self, ci, levels, bases=None):
         parent = self.mesa.Model
         res = _resolved(levels)
         drv = self
+        built = {}
         for idx in reversed(range(len(levels))):
             lv = levels[idx]
             holder = []
             ns = {}
             if lv["def"]:
                 def body(self, args, kwargs, idx=idx, lv=lv, holder=holder):
-                    if idx == res:
+                    if idx == res and drv.depth == 0:
                         drv.calls += 1
                         if drv.budget is not None and drv.calls > drv.budget:
                             raise _Budget
@@ -199,6 +229,12 @@ class _Driver:
                     drv.log.append((drv.index_of(self), idx, self.steps, bool(self.running), allargs))
                     if lv["raise"] is not None and self.steps == lv["raise"]:
                         raise _Boom
+                    if lv.get("rec") is not None and self.steps < lv["rec"]:
+                        drv.depth += 1
+                        try:
+                            self.step()      # the instance attribute: through the counting wrapper again
+                        finally:
+                            drv.depth -= 1
                     if lv["super"]:
                         if lv["fwd"]:
                             super(holder[0], self).step(*args, **kwargs)
@@ -215,9 +251,18 @@ class _Driver:
                 env = {"_body": body}
                 exec(src, env)  # noqa: S102 - the source is generated two lines above
                 ns["step"] = env["step"]
-            cls = type(f"C{ci}L{idx}", (parent,), ns)
+            if bases is not None and bases[idx]:
+                cls = type(f"C{ci}L{idx}", tuple(built[b] for b in bases[idx]), ns)
+            else:
+                cls = type(f"C{ci}L{idx}", (parent if bases is None else self.mesa.Model,), ns)
+            built[idx] = cls
             holder.append(cls)
             parent = cls
+        if bases is not None and levels:
+            mro = [c for c in built[0].__mro__ if c in built.values()]
+            if mro != [built[k] for k in range(len(levels))]:
+                raise RuntimeError(f"the generated multiple-inheritance DAG {bases} does not linearise to the level order")
+            return built[0]
         return parent
 
     # the property's own reading of which user bodies one call must run (first definer, then each super() call)
@@ -241,6 +286,27 @@ class _Driver:
             return evs, "ok"
 
         return call(0, list(args))
+
+    def check_recursive(self, i, levels, s0, evs, status, what, before, m):
+        """a class whose bodies call self.step() again: every call, outer or nested, must be counted once and before
+        its user code: the resolved body sees s0+1, s0+2, ... and steps ends at the last value seen"""
+        res = _resolved(levels)
+        tops = [e[2] for e in evs if e[1] == res]
+        if res is not None and levels[res]["arity"] < 0:
+            if tops != list(range(s0 + 1, s0 + 1 + len(tops))):
+                self.fail("C05/Model.step/counter-not-advanced-before-user-code",
+                          f"{what} (recursive self.step()): successive calls saw self.steps = {tops}, must see {s0 + 1}, {s0 + 2}, ...")
+            if m.steps != s0 + len(tops) or not tops:
+                self.fail("C05/Model.step/steps-not-advanced-by-exactly-one",
+                          f"{what} (recursive self.step()): {len(tops)} calls ran the user step, steps went from {s0} to {m.steps}")
+        elif m.steps < s0 + 1:
+            self.fail("C05/Model.step/steps-not-advanced-by-exactly-one", f"{what}: steps is {m.steps} afterwards")
+        if any(e[0] != i for e in evs):
+            self.fail("C05/Model.step/user-step-bodies-not-run-exactly-once", f"{what}: bodies of other instances ran")
+        for j, (a, b) in enumerate(zip(before, self.states())):
+            if j != i and a != b:
+                self.fail("C05/Model.step/other-model-changed", f"{what}: instance {j} went from {a} to {b}")
+        return status + [int(m.steps), 1 if m.running else 0, len(evs)] + self.enc_events(evs)
 
     def states(self):
         return [(m.steps, bool(m.running)) for m in self.insts]
@@ -296,6 +362,9 @@ class _Driver:
                 status = [-1, 3]
             evs = self.log[start:]
             what = f"instance {i} (class levels {levels}) step(*{pos}, **{kw}) with steps={s0} before"
+            recursive = any(lv.get("rec") is not None for lv in levels)
+            if recursive:
+                return self.check_recursive(i, levels, s0, evs, status, what, before, m)
             if m.steps != s0 + 1:
                 self.fail("C05/Model.step/steps-not-advanced-by-exactly-one", f"{what}: steps is {m.steps} afterwards")
             if any(e[2] != s0 + 1 for e in evs):
@@ -333,6 +402,10 @@ class _Driver:
             evs = self.log[start:]
             what = f"instance {i} (class levels {levels}) run_model() with steps={s0}, running={before[i][1]} before"
             tops = [e for e in evs if e[1] == res]
+            if any(lv.get("rec") is not None for lv in levels):
+                if before[i][1] and status != [-4]:
+                    return self.check_recursive(i, levels, s0, evs, status, what, before, m)
+                return status + [int(m.steps), 1 if m.running else 0, len(evs)] + self.enc_events(evs)
             if not before[i][1]:
                 if evs or m.steps != s0:
                     self.fail("C05/Model.run_model/stepped-while-not-running", f"{what}: steps {m.steps}, user bodies run {len(evs)}")
@@ -381,7 +454,8 @@ def _optz(v):
 
 def _level(lv):
     return (f"{{| l_def := {L.b(lv['def'])}; l_arity := {L.z(lv['arity'])}; l_super := {L.b(lv['super'])}; "
-            f"l_fwd := {L.b(lv['fwd'])}; l_stop := {_optz(lv['stop'])}; l_raise := {_optz(lv['raise'])} |}}")
+            f"l_fwd := {L.b(lv['fwd'])}; l_stop := {_optz(lv['stop'])}; l_raise := {_optz(lv['raise'])}; "
+            f"l_rec := {_optz(lv.get('rec'))} |}}")
 
 
 def _op(op):
@@ -408,8 +482,10 @@ def op_kinds(case):
             out.append(f"step/{len(op[2])}args/{op[3]}kw")
         else:
             out.append(op[0])
-    for c in case["classes"]:
-        out.append(f"class/depth{len(c)}/" + "".join(("S" if lv["super"] else "D") if lv["def"] else "-" for lv in c))
+    for ci, c in enumerate(case["classes"]):
+        mi = "/multiple-inheritance" if (case.get("bases") or [None] * (ci + 1))[ci] else ""
+        rc = "/recursive" if any(lv.get("rec") is not None for lv in c) else ""
+        out.append(f"class/depth{len(c)}/" + "".join(("S" if lv["super"] else "D") if lv["def"] else "-" for lv in c) + mi + rc)
     return out
 
 
